@@ -289,6 +289,10 @@ def run(run):
                             "hashlib.sha256(self.key.to_string() + self._auth_data).digest()", "self.message.report_data.field",
                             "SgxReportBody(self._message)", "sgx_attestation_key")
         c07._x509(run, F, PV, P.cls("admin.certificate_v2.HSMCertificateV2ElementX509"))
+        from . import c08
+        run.rule("V.R2h", "The Ledger verify command's message header patterns are the fixed-width `^HSM:UI:([2345].[0-9])` / `^HSM:SIGNER:([2345].[0-9])` "
+                 "(no terminator follows the version: a greedy pattern shifts every offset for some genuine devices).")
+        c08.header_patterns(run, "R2h")
     finally:
         run.rid_prefix = ""
 
